@@ -15,10 +15,119 @@ class TranslateError(Exception):
     pass
 
 
-def fetch_tables():
-    src = os.path.join(common.REPO, "sylvia-derive", "src")
+def fetch_raw(subdir):
+    src = os.path.join(common.REPO, subdir, "src")
     res = common.probe_run([("t", "tables", "", src)], shards=1, tag="tables")
-    kv = res.get("t", [])
+    return res.get("t", [])
+
+
+def nows(s):
+    return "".join(s.split())
+
+
+def generate_lib():
+    """GenLib.v: tables of sylvia's run-time library (sylvia/src). Returns coq text."""
+    kv = fetch_raw("sylvia")
+    errors = [v for k, v in kv if k == "file_error"]
+    if errors:
+        raise TranslateError("unparsable source files: %s" % errors)
+    arms, structlits, sdefs, sfields = {}, [], {}, {}
+    for k, v in kv:
+        if k == "arm":
+            parts = v.split(" @@ ")
+            parts += [""] * (4 - len(parts))
+            arms.setdefault(parts[0], []).append((parts[1].strip(), parts[2].strip(), " @@ ".join(parts[3:]).strip()))
+        elif k == "structlit":
+            parts = v.split(" @@ ")
+            parts += [""] * (4 - len(parts))
+            structlits.append((parts[0], parts[1].strip(), parts[2], parts[3].strip()))
+        elif k == "structdef":
+            parts = v.split(" @@ ")
+            parts += [""] * (3 - len(parts))
+            sdefs[parts[0]] = [a.strip() for a in parts[2].split(" ;; ") if a.strip()]
+        elif k == "structfield":
+            parts = v.split(" @@ ")
+            parts += [""] * (4 - len(parts))
+            sfields.setdefault(parts[0], []).append((parts[1], parts[2], [a.strip() for a in parts[3].split(" ;; ") if a.strip()]))
+    # ---- IntoMsg::into_msg
+    key = [k for k in arms if k.startswith("into_response.rs::") and k.endswith("into_msg#m0")]
+    if len(key) != 1:
+        raise TranslateError("into_response.rs: the match of IntoMsg::into_msg was not found (%s)" % key)
+    table = []
+    default_seen = False
+    for pat, guard, body in arms[key[0]]:
+        if pat == "_":
+            default_seen = True
+            if "Err" not in body:
+                raise TranslateError("into_msg: the default arm is not an error: %s" % body[:80])
+            continue
+        m = re.fullmatch(r"CosmosMsg\s*::\s*(\w+)\s*(.*)", pat, flags=re.S)
+        if not m or guard:
+            raise TranslateError("into_msg: unexpected arm pattern %s" % pat)
+        variant = m.group(1)
+        if nows(body) == nows(pat):
+            table.append((variant, "keep"))
+        elif "Err" in body and "CosmosMsg" not in body:
+            table.append((variant, "err"))
+        else:
+            raise TranslateError("into_msg: arm %s => %s is neither the same message nor an error" % (pat, body[:80]))
+    if not default_seen:
+        raise TranslateError("into_msg: no default arm")
+    lits = [x for x in structlits if x[0].startswith("into_response.rs::") and x[0].endswith("into_msg") and nows(x[1]) == "SubMsg"]
+    if len(lits) != 1:
+        raise TranslateError("into_msg: expected exactly one `SubMsg { .. }` literal, found %d" % len(lits))
+    if lits[0][3]:
+        raise TranslateError("into_msg: the SubMsg literal uses a rest expression: %s" % lits[0][3])
+    fmap = []
+    for f in lits[0][2].split(" ;; "):
+        name, _, expr = f.partition("=")
+        name, expr = name.strip(), nows(expr)
+        if expr == name:
+            src = name
+        elif expr == "self." + name or re.fullmatch(r"self\.\w+", expr):
+            src = expr[len("self."):]
+        else:
+            raise TranslateError("into_msg: field %s of the SubMsg literal is `%s`, not a field of self" % (name, expr))
+        fmap.append((name, src))
+    # ---- Remote
+    rk = [k for k in sdefs if k == "types.rs::Remote"]
+    if not rk:
+        raise TranslateError("types.rs: struct Remote not found")
+    rattrs = [nows(a)[2:-1] if nows(a).startswith("#[") else nows(a) for a in sdefs[rk[0]]]
+    rfields = [(n, nows(t), [nows(a)[2:-1] for a in attrs]) for n, t, attrs in sfields.get(rk[0], [])]
+    # schema_name of Remote: the string literal returned by the hand-written JsonSchema impl
+    schema_name = None
+    types_src = open(os.path.join(common.REPO, "sylvia", "src", "types.rs")).read()
+    m = re.search(r"JsonSchema\s+for\s+Remote<[^{]*\{\s*fn\s+schema_name\s*\(\s*\)\s*->\s*[\w:]+\s*\{\s*\"([^\"]*)\"\s*\.\s*to_owned\s*\(\s*\)\s*\}", types_src)
+    if not m:
+        raise TranslateError("types.rs: Remote's schema_name is not a string literal")
+    schema_name = m.group(1)
+    cs = common.coq_string
+    text = "\n".join([
+        "(* GENERATED on every run by py/verif/translate.py from /repo/sylvia/src. Do not edit. *)",
+        "From Coq Require Import String List.", "Import ListNotations.", "Open Scope string_scope.",
+        "Definition into_msg_arms : list (string * string) :=",
+        "  " + common.coq_list(["(%s, %s)" % (cs(a), cs(b)) for a, b in table]) + ".",
+        "Definition submsg_field_map : list (string * string) :=",
+        "  " + common.coq_list(["(%s, %s)" % (cs(a), cs(b)) for a, b in fmap]) + ".",
+        "Definition remote_fields : list (string * string * list string) :=",
+        "  " + common.coq_list(["(%s, %s, %s)" % (cs(n), cs(t), common.coq_list([cs(a) for a in attrs])) for n, t, attrs in rfields]) + ".",
+        "Definition remote_type_attrs : list string := " + common.coq_list([cs(a) for a in rattrs]) + ".",
+        "Definition remote_schema_name : string := %s." % cs(schema_name), ""])
+    return text
+
+
+def write_genlib(text):
+    path = os.path.join(COQ, "theories", "Model", "GenLib.v")
+    old = open(path).read() if os.path.exists(path) else None
+    if old != text:
+        with open(path, "w") as f:
+            f.write(text)
+    return path
+
+
+def fetch_tables():
+    kv = fetch_raw("sylvia-derive")
     matches = {}
     templates = []
     diags = []
